@@ -3,13 +3,14 @@
    answers in the format of the harness' impl file.  All numbers are hexadecimal; offsets / lengths / bytes stay the
    extracted inductive N inside the model.
      P <id> <ps> <max_cache> <flen> <fseed>      -> echoed
-     <op> [~] | R <off>* | W <off>* | B <0|1>*    -> r=<result> ev=<backend events> <picture of the caches | ~> [!proto]
+     <op> [~] | R <off>* | W <off>* | B <0|1>* [| H <result> <ns>]   -> r=<result> ev=<backend events> <picture of the caches | ~> [!proto]
      E                                            -> file=<fnv64 of the model's backend bytes>
    The oracle of the model is what the real crate was observed to do: R = read-cache keys it evicted (ordered here by
    length, then offset, which reproduces every stopping point of the eviction loops), W = the offsets of its backend
    writes in order (eviction / writeback / flush order), B = the backend's answers.  `giveup` (LRUWriteCache::
    pop_lowest_priority returning None next to a taken page) is not observable: the step is run without it and,
-   if the model then writes other pages than the crate did, once more with it.
+   if the model then writes other pages, evicts other read-cache keys, returns another result or leaves another
+   next_eviction_stripe than the crate did (H), once more with it.
    `!proto` is appended when the extracted usage protocol (proto_step) rejects the call: the theorems do not
    cover such a program (a generator bug).                                                                        *)
 open Cache_model
@@ -126,12 +127,29 @@ let () =
           | ["ln"] -> OLen
           | ["ck"] -> OCheckIo
           | _ -> failwith ("op " ^ line) in
-        let ((s1, e1), r1) = step !cfg !st op (orc []) in
+        (* does an attempt reproduce what was observed: the backend writes and the set of evicted read-cache keys *)
+        let robs_set = List.sort compare (List.map snd robs) in
+        let keys_before = List.map (fun (k, _) -> int_of_n k) !st.rc in
+        let evicted (s1 : state) evs =
+          let after = List.map (fun (k, _) -> int_of_n k) s1.rc in
+          let gone = List.filter (fun k -> not (List.mem k after)) keys_before in
+          match optoks with
+          | "r" :: a :: _ ->
+            let a = int_of_string ("0x" ^ a) in
+            let read_ok = List.exists (fun e -> e.e_ok && (match e.e_call with BRead _ -> true | _ -> false)) evs in
+            List.sort compare (if read_ok && not (List.mem a after) && not (List.mem a keys_before) then a :: gone else gone)
+          | "w" :: a :: _ -> let a = int_of_string ("0x" ^ a) in List.sort compare (List.filter (fun k -> k <> a) gone)
+          | _ -> robs_set in
+        let hint = sect "H" in
+        let matches ((s1, e1), r1) =
+          write_offsets e1 = wobs && evicted s1 e1 = robs_set
+          && (match hint with [hr; hns] -> res_str r1 = hr && hn s1.nstripe = hns | _ -> true) in
+        let a1 = step !cfg !st op (orc []) in
         let ((s1, e1), r1) =
-          if write_offsets e1 = wobs then ((s1, e1), r1)
+          if matches a1 then a1
           else
-            let ((s2, e2), r2) = step !cfg !st op (orc all_stripes) in
-            if write_offsets e2 = wobs then ((s2, e2), r2) else ((s1, e1), r1) in
+            let a2 = step !cfg !st op (orc all_stripes) in
+            if matches a2 then a2 else a1 in
         (match op, r1 with
          | OWrite (a, _, _), Data d -> Hashtbl.replace outs (int_of_n a) d
          | _ -> ());
